@@ -12,7 +12,7 @@
      sch    : list bool, one entry popped per item migration in pvRelocateItems; true = this migration throws
               (recomputed hash throws, or Bucket::AddCrt cannot allocate); [] = no more failures
    Section parameters = everything that differs between bucket kinds / hash functions / key categories. *)
-From Coq Require Import ZArith List Lia Bool.
+From Coq Require Import ZArith List Lia Bool Permutation.
 Import ListNotations.
 Local Open Scope Z_scope.
 
@@ -301,6 +301,871 @@ Section GrowModel.
   Definition shape (s : hset) : list (Z * list (list Z * bool)) :=
     map (fun t => (tlog t, map (fun b => (items b, wasFull b)) (tbs t))) (gens s).
 
+
+  (* ================================================================================================== *)
+  (*  PROOFS                                                                                             *)
+  (* ================================================================================================== *)
+  Hypothesis cap_pos : 0 < cap.
+  Hypothesis start_range : forall hc bc, 0 < bc -> 0 <= start hc bc < bc.
+  Hypothesis next_range : forall i bc p, 0 < bc -> 0 <= next i bc p < bc.
+  Hypothesis decode_upd : forall L b p, 0 <= p -> p <= decode L (upd_bound b p) /\ decode L b <= decode L (upd_bound b p).
+  Hypothesis shift_nonneg : forall bc, 0 <= shift bc.
+  Hypothesis logStart_nonneg : 0 <= logStart.
+
+  (* ---- lists ---- *)
+  Lemma upd_nth_length : forall A n (x : A) l, length (upd_nth n x l) = length l.
+  Proof. induction n; destruct l; simpl; auto. Qed.
+
+  Lemma nth_upd_nth_eq : forall A n (x d : A) l, (n < length l)%nat -> nth n (upd_nth n x l) d = x.
+  Proof. induction n; destruct l; simpl; intros; try lia; auto. apply IHn; lia. Qed.
+
+  Lemma nth_upd_nth_neq : forall A n m (x d : A) l, n <> m -> nth m (upd_nth n x l) d = nth m l d.
+  Proof. induction n; destruct l; destruct m; simpl; intros; try congruence; auto. Qed.
+
+  Lemma upd_nth_split : forall A n (x : A) l b, nth_error l n = Some b ->
+    exists l1 l2, l = l1 ++ b :: l2 /\ upd_nth n x l = l1 ++ x :: l2 /\ length l1 = n.
+  Proof.
+    induction n; destruct l; simpl; intros; try discriminate.
+    - inversion H; subst. exists [], l; auto.
+    - destruct (IHn x l b H) as (l1 & l2 & E1 & E2 & E3). exists (a :: l1), l2. subst. simpl. rewrite E2. auto.
+  Qed.
+
+  Lemma nth_error_nth' : forall A (l : list A) n d b, nth_error l n = Some b -> nth n l d = b.
+  Proof. induction l; destruct n; simpl; intros; try discriminate; auto. congruence. Qed.
+
+  Lemma nth_error_some_lt : forall A (l : list A) n b, nth_error l n = Some b -> (n < length l)%nat.
+  Proof. intros. apply nth_error_Some. congruence. Qed.
+
+  Lemma nth_error_of_lt : forall A (l : list A) n d, (n < length l)%nat -> nth_error l n = Some (nth n l d).
+  Proof. induction l; destruct n; simpl; intros; try lia; auto. apply IHl; lia. Qed.
+
+  Lemma bfind_some : forall k l p, bfind k l = Some p -> nth_error l p = Some k.
+  Proof.
+    induction l as [|a l IH]; simpl; intros p H; [discriminate|].
+    destruct (Z.eqb_spec k a).
+    - inversion H; subst; reflexivity.
+    - destruct (bfind k l) eqn:E; [|discriminate]. inversion H; subst. simpl. apply IH; reflexivity.
+  Qed.
+
+  Lemma bfind_in : forall k l, In k l -> exists p, bfind k l = Some p.
+  Proof.
+    induction l as [|a l IH]; simpl; intros H; [tauto|].
+    destruct (Z.eqb_spec k a); [eauto|].
+    destruct H as [H|H]; [congruence|]. destruct (IH H) as [p E]. rewrite E. eauto.
+  Qed.
+
+  Ltac count_goal :=
+    apply (Permutation_count_occ Z.eq_dec); intro.
+  Ltac count_hyp H x :=
+    let H' := fresh H in pose proof (proj1 (Permutation_count_occ Z.eq_dec _ _) H x) as H'.
+
+  Lemma bremove_spec : forall l pos k, nth_error l pos = Some k ->
+    Permutation l (k :: bremove pos l) /\ (forall x, In x (bremove pos l) -> In x l) /\
+    S (length (bremove pos l)) = length l.
+  Proof.
+    intros l pos k H. unfold bremove.
+    destruct (rev l) as [|z r] eqn:E.
+    { apply (f_equal (@rev Z)) in E. rewrite rev_involutive in E. subst. destruct pos; discriminate. }
+    assert (L : l = rev r ++ [z]).
+    { apply (f_equal (@rev Z)) in E. rewrite rev_involutive in E. simpl in E. auto. }
+    rewrite L. rewrite removelast_last. set (l' := rev r) in *.
+    destruct (Nat.eqb_spec pos (length l')).
+    - subst pos. rewrite L in H. rewrite nth_error_app2 in H by lia. rewrite Nat.sub_diag in H. simpl in H. inversion H; subst.
+      split; [|split].
+      + apply Permutation_sym, Permutation_cons_append.
+      + intros. apply in_or_app; auto.
+      + rewrite app_length; simpl; lia.
+    - assert (pos < length l')%nat.
+      { apply nth_error_some_lt in H. rewrite L, app_length in H. simpl in H. lia. }
+      rewrite L in H. rewrite nth_error_app1 in H by lia.
+      destruct (upd_nth_split _ pos z l' k H) as (l1 & l2 & E1 & E2 & E3).
+      rewrite E2. rewrite E1. split; [|split].
+      + apply (Permutation_count_occ Z.eq_dec); intro x.
+        change (k :: l1 ++ z :: l2) with ([k] ++ l1 ++ [z] ++ l2).
+        change ((l1 ++ k :: l2) ++ [z]) with ((l1 ++ [k] ++ l2) ++ [z]).
+        repeat rewrite count_occ_app. lia.
+      + intros x Hx. apply in_app_or in Hx. apply in_or_app. destruct Hx as [Hx|Hx].
+        * left. apply in_or_app. auto.
+        * simpl in Hx. destruct Hx; [right; simpl; auto| left; apply in_or_app; right; simpl; auto].
+      + repeat rewrite app_length. simpl. lia.
+  Qed.
+
+  Lemma flat_map_upd_nth_same : forall (l : list bucket) n b b', nth_error l n = Some b -> items b' = items b ->
+    flat_map items (upd_nth n b' l) = flat_map items l.
+  Proof.
+    intros. destruct (upd_nth_split _ n b' l b H) as (l1 & l2 & E1 & E2 & _).
+    rewrite E2, E1. repeat rewrite flat_map_app. simpl. congruence.
+  Qed.
+
+  Lemma flat_map_upd_nth_perm : forall (l : list bucket) n b b' x, nth_error l n = Some b ->
+    Permutation (items b') (x ++ items b) -> Permutation (flat_map items (upd_nth n b' l)) (x ++ flat_map items l).
+  Proof.
+    intros. destruct (upd_nth_split _ n b' l b H) as (l1 & l2 & E1 & E2 & _).
+    rewrite E2, E1. repeat rewrite flat_map_app. simpl.
+    apply (Permutation_count_occ Z.eq_dec); intro y. count_hyp H0 y.
+    repeat rewrite count_occ_app in *. lia.
+  Qed.
+
+  (* ---- one table ---- *)
+  Definition tkeys (t : table) : list Z := flat_map items (tbs t).
+  Definition allkeys (gs : list table) : list Z := flat_map tkeys gs.
+
+  Fixpoint path (bc hc : Z) (d : nat) : Z :=
+    match d with O => start hc bc | S d' => next (path bc hc d') bc (Z.of_nat d) end.
+
+  (* key k stored in bucket i of t is reachable by pvFind: it lies on the probe path of its home bucket, within
+     the recorded bound of the home bucket, and every bucket before it on the path has WasFull *)
+  Definition placed (t : table) (k : Z) (i : nat) : Prop :=
+    exists d : nat, Z.to_nat (path (bcount t) (h k) d) = i /\
+      Z.of_nat d <= decode (tlog t) (bound (getb t (path (bcount t) (h k) 0))) /\
+      forall j, (j < d)%nat -> wasFull (getb t (path (bcount t) (h k) j)) = true.
+
+  Definition tinv (t : table) : Prop :=
+    0 <= tlog t /\ length (tbs t) = Z.to_nat (bcount t) /\
+    forall i b, nth_error (tbs t) i = Some b ->
+      (isFull b = true -> wasFull b = true) /\ forall k, In k (items b) -> placed t k i.
+
+  Lemma bcount_pos : forall t, 0 <= tlog t -> 0 < bcount t.
+  Proof. intros. unfold bcount. apply Z.pow_pos_nonneg; lia. Qed.
+
+  Lemma path_range : forall bc hc d, 0 < bc -> 0 <= path bc hc d < bc.
+  Proof. destruct d; simpl; intros; auto. Qed.
+
+  Lemma path_in_range : forall t hc d, tinv t -> (Z.to_nat (path (bcount t) hc d) < length (tbs t))%nat.
+  Proof.
+    intros t hc d (H0 & HL & _). rewrite HL. pose proof (path_range (bcount t) hc d (bcount_pos t H0)). lia.
+  Qed.
+
+  Lemma getb_nth_error : forall t z, (Z.to_nat z < length (tbs t))%nat -> nth_error (tbs t) (Z.to_nat z) = Some (getb t z).
+  Proof. intros. unfold getb. apply nth_error_of_lt; auto. Qed.
+
+  Lemma probe_loop_sound : forall n t k p idx b i pos,
+    probe_loop n t k p idx b = Some (i, pos) -> bfind k (items (getb t i)) = Some pos.
+  Proof.
+    induction n; simpl; intros; [discriminate|].
+    destruct (wasFull b); [|discriminate].
+    destruct (bfind k (items (getb t (next idx (bcount t) (Z.of_nat p))))) eqn:E.
+    - inversion H; subst; auto.
+    - eapply IHn; eauto.
+  Qed.
+
+  Lemma tfind_sound : forall t k i pos, tfind t k = Some (i, pos) -> bfind k (items (getb t i)) = Some pos.
+  Proof.
+    unfold tfind; intros. destruct (bfind k (items (getb t (start (h k) (bcount t))))) eqn:E.
+    - inversion H; subst; auto.
+    - eapply probe_loop_sound; eauto.
+  Qed.
+
+  Lemma probe_loop_S : forall n t k p idx b, probe_loop (S n) t k p idx b =
+    if wasFull b then
+      match bfind k (items (getb t (next idx (bcount t) (Z.of_nat p)))) with
+      | Some pos => Some (next idx (bcount t) (Z.of_nat p), pos)
+      | None => probe_loop n t k (S p) (next idx (bcount t) (Z.of_nat p)) (getb t (next idx (bcount t) (Z.of_nat p)))
+      end
+    else None.
+  Proof. reflexivity. Qed.
+
+  Lemma path_S : forall bc hc d, path bc hc (S d) = next (path bc hc d) bc (Z.of_nat (S d)).
+  Proof. reflexivity. Qed.
+
+  Lemma probe_loop_complete : forall t k d m j n,
+    (j + S m = d)%nat -> (S m <= n)%nat ->
+    (forall j', (j <= j' < d)%nat -> wasFull (getb t (path (bcount t) (h k) j')) = true) ->
+    In k (items (getb t (path (bcount t) (h k) d))) ->
+    exists i pos, probe_loop n t k (S j) (path (bcount t) (h k) j) (getb t (path (bcount t) (h k) j)) = Some (i, pos).
+  Proof.
+    induction m; intros j n Hd Hn Hw Hin; (destruct n; [lia|]); rewrite probe_loop_S; rewrite (Hw j) by lia;
+      rewrite <- path_S.
+    - replace (S j) with d by lia. destruct (bfind_in _ _ Hin) as [p E]. rewrite E. eauto.
+    - destruct (bfind k (items (getb t (path (bcount t) (h k) (S j))))) eqn:E; [eauto|].
+      apply (IHm (S j) n); auto; try lia. intros; apply Hw; lia.
+  Qed.
+
+  Lemma tfind_complete : forall t k d,
+    Z.of_nat d <= decode (tlog t) (bound (getb t (path (bcount t) (h k) 0))) ->
+    (forall j, (j < d)%nat -> wasFull (getb t (path (bcount t) (h k) j)) = true) ->
+    In k (items (getb t (path (bcount t) (h k) d))) ->
+    exists i pos, tfind t k = Some (i, pos).
+  Proof.
+    intros t k d Hb Hw Hin. unfold tfind.
+    change (start (h k) (bcount t)) with (path (bcount t) (h k) 0).
+    destruct (bfind k (items (getb t (path (bcount t) (h k) 0)))) eqn:E; [eauto|].
+    destruct d as [|m].
+    - destruct (bfind_in _ _ Hin) as [p E']. congruence.
+    - apply (probe_loop_complete t k (S m) m 0); auto; try lia. intros; apply Hw; lia.
+  Qed.
+
+  Lemma tinv_find : forall t k, tinv t -> In k (tkeys t) -> exists i pos, tfind t k = Some (i, pos).
+  Proof.
+    intros t k Ht Hin. unfold tkeys in Hin. apply in_flat_map in Hin. destruct Hin as (b & Hb & Hk).
+    apply In_nth_error in Hb. destruct Hb as [i Hi].
+    destruct Ht as (H0 & HL & HB). destruct (HB i b Hi) as (_ & HP). destruct (HP k Hk) as (d & E & Hd & Hw).
+    apply (tfind_complete t k d); auto.
+    unfold getb. rewrite E. rewrite (nth_error_nth' _ _ _ emptyB _ Hi). auto.
+  Qed.
+
+  Lemma getb_items_in_range : forall t z x, In x (items (getb t z)) -> (Z.to_nat z < length (tbs t))%nat.
+  Proof.
+    intros. destruct (Nat.lt_ge_cases (Z.to_nat z) (length (tbs t))); auto.
+    unfold getb in H. rewrite nth_overflow in H by lia. simpl in H. tauto.
+  Qed.
+
+  Lemma tfind_in : forall t k i pos, tfind t k = Some (i, pos) ->
+    nth_error (items (getb t i)) pos = Some k /\ (Z.to_nat i < length (tbs t))%nat /\ In k (tkeys t).
+  Proof.
+    intros. apply tfind_sound in H. apply bfind_some in H. split; auto.
+    assert (In k (items (getb t i))) by (eapply nth_error_In; eauto).
+    split. { eapply getb_items_in_range; eauto. }
+    unfold tkeys. apply in_flat_map. exists (getb t i). split; auto.
+    unfold getb. apply nth_In. eapply getb_items_in_range; eauto.
+  Qed.
+
+  (* ---- monotone changes of the metadata keep keys placed ---- *)
+  Lemma placed_mono : forall t t' k i, tlog t' = tlog t ->
+    (forall z, wasFull (getb t z) = true -> wasFull (getb t' z) = true) ->
+    (forall z, decode (tlog t) (bound (getb t z)) <= decode (tlog t) (bound (getb t' z))) ->
+    placed t k i -> placed t' k i.
+  Proof.
+    intros t t' k i HL HW HB (d & E & Hd & Hw). unfold placed, bcount in *. rewrite HL.
+    exists d. split; auto. split.
+    - eapply Z.le_trans; [apply Hd|]. apply HB.
+    - intros; apply HW, Hw; auto.
+  Qed.
+
+  (* bucket b' holds a sub-multiset of b, same metadata (Bucket::Remove keeps WasFull and the max-probe state) *)
+  Definition bsub (b' b : bucket) : Prop :=
+    (forall x, In x (items b') -> In x (items b)) /\ (length (items b') <= length (items b))%nat /\
+    wasFull b' = wasFull b /\ bound b' = bound b.
+
+  Lemma bsub_refl : forall b, bsub b b.
+  Proof. unfold bsub; intuition. Qed.
+
+  Lemma Forall2_bsub_refl : forall l, Forall2 bsub l l.
+  Proof. induction l; constructor; auto using bsub_refl. Qed.
+
+  Lemma Forall2_nth_error1 : forall A (R : A -> A -> Prop) l1 l2, Forall2 R l1 l2 -> forall i a, nth_error l1 i = Some a ->
+    exists b, nth_error l2 i = Some b /\ R a b.
+  Proof.
+    induction 1; intros i a0 Hi; destruct i; simpl in *; try discriminate.
+    - inversion Hi; subst; eauto.
+    - eauto.
+  Qed.
+
+  Lemma Forall2_bsub_meta : forall l1 l2, Forall2 bsub l1 l2 -> forall n,
+    wasFull (nth n l1 emptyB) = wasFull (nth n l2 emptyB) /\ bound (nth n l1 emptyB) = bound (nth n l2 emptyB).
+  Proof.
+    induction 1; intros n; destruct n; simpl; auto. destruct H as (_ & _ & ? & ?); auto.
+  Qed.
+
+  Lemma Forall2_length' : forall A (R : A -> A -> Prop) l1 l2, Forall2 R l1 l2 -> length l1 = length l2.
+  Proof. induction 1; simpl; auto. Qed.
+
+  Lemma Forall2_bsub_upd : forall l n b b', nth_error l n = Some b -> bsub b' b -> Forall2 bsub (upd_nth n b' l) l.
+  Proof.
+    intros. destruct (upd_nth_split _ n b' l b H) as (l1 & l2 & E1 & E2 & _). rewrite E2. rewrite E1.
+    apply Forall2_app; [apply Forall2_bsub_refl|]. constructor; auto using Forall2_bsub_refl.
+  Qed.
+
+  Lemma tinv_sub : forall t bs', tinv t -> Forall2 bsub bs' (tbs t) -> tinv (mkT (tlog t) bs').
+  Proof.
+    intros t bs' (H0 & HL & HB) HS. split; [|split]; simpl; auto.
+    - unfold bcount in *; simpl. rewrite <- HL. eapply Forall2_length'; eauto.
+    - intros i b' Hi. destruct (Forall2_nth_error1 _ _ _ _ HS i b' Hi) as (b & Hb & (S1 & S2 & S3 & S4)).
+      destruct (HB i b Hb) as (HF & HP). split.
+      + unfold isFull, blen in *. rewrite S3. intros. apply HF. apply Z.leb_le in H. apply Z.leb_le. lia.
+      + intros k Hk. apply (placed_mono t); auto.
+        * unfold getb; simpl. intros z. destruct (Forall2_bsub_meta _ _ HS (Z.to_nat z)) as [E _]. rewrite E; auto.
+        * unfold getb; simpl. intros z. destruct (Forall2_bsub_meta _ _ HS (Z.to_nat z)) as [_ E]. rewrite E; lia.
+  Qed.
+
+  (* ---- Remove ---- *)
+  Lemma tremove_spec : forall t idx pos k, tinv t -> nth_error (items (getb t idx)) pos = Some k ->
+    tinv (tremove t idx pos) /\ Permutation (tkeys t) (k :: tkeys (tremove t idx pos)) /\ tlog (tremove t idx pos) = tlog t.
+  Proof.
+    intros t idx pos k Ht Hn.
+    assert (HR : (Z.to_nat idx < length (tbs t))%nat) by (eapply getb_items_in_range, nth_error_In; eauto).
+    destruct (bremove_spec _ _ _ Hn) as (P1 & P2 & P3).
+    pose proof (getb_nth_error t idx HR) as HE.
+    unfold tremove, setb. split; [|split]; auto.
+    - apply tinv_sub; auto. eapply Forall2_bsub_upd; eauto. unfold bsub; simpl. intuition lia.
+    - unfold tkeys; simpl.
+      assert (Permutation (flat_map items (upd_nth (Z.to_nat idx) (mkB (bremove pos (items (getb t idx))) (wasFull (getb t idx)) (bound (getb t idx))) (tbs t)) ++ [k])
+                          (flat_map items (tbs t))).
+      { destruct (upd_nth_split _ (Z.to_nat idx) (mkB (bremove pos (items (getb t idx))) (wasFull (getb t idx)) (bound (getb t idx))) (tbs t) _ HE)
+          as (l1 & l2 & E1 & E2 & _).
+        rewrite E2. rewrite E1. repeat rewrite flat_map_app. simpl.
+        apply (Permutation_count_occ Z.eq_dec); intro y. count_hyp P1 y.
+        change (k :: bremove pos (items (getb t idx))) with ([k] ++ bremove pos (items (getb t idx))) in P0.
+        repeat rewrite count_occ_app in *. lia. }
+      apply Permutation_sym. eapply Permutation_trans; [|apply H]. apply Permutation_cons_append.
+  Qed.
+
+  (* ---- pvAddNogrow ---- *)
+  Lemma add_loop_spec : forall t hc n p idx q,
+    add_loop n t p (path (bcount t) hc p) = Some (idx, q) ->
+    idx = path (bcount t) hc q /\ (p <= q)%nat /\ isFull (getb t idx) = false /\
+    forall j, (p <= j < q)%nat -> isFull (getb t (path (bcount t) hc j)) = true.
+  Proof.
+    induction n; intros p idx q H; simpl in H.
+    - destruct (isFull (getb t (path (bcount t) hc p))) eqn:E; [discriminate|]. inversion H; subst.
+      repeat split; auto. intros; lia.
+    - destruct (isFull (getb t (path (bcount t) hc p))) eqn:E.
+      + rewrite <- path_S in H. destruct (IHn _ _ _ H) as (A & B' & C & D). repeat split; auto; try lia.
+        intros j Hj. destruct (Nat.eq_dec j p); [subst; auto|apply D; lia].
+      + inversion H; subst. repeat split; auto. intros; lia.
+  Qed.
+
+  Lemma add_loop_none : forall t hc n p,
+    add_loop n t p (path (bcount t) hc p) = None ->
+    forall j, (p <= j <= p + n)%nat -> isFull (getb t (path (bcount t) hc j)) = true.
+  Proof.
+    induction n; intros p H j Hj; simpl in H.
+    - destruct (isFull (getb t (path (bcount t) hc p))) eqn:E; [|discriminate]. replace j with p by lia. auto.
+    - destruct (isFull (getb t (path (bcount t) hc p))) eqn:E; [|discriminate].
+      rewrite <- path_S in H. destruct (Nat.eq_dec j p); [subst; auto|]. apply (IHn (S p)); auto. lia.
+  Qed.
+
+  Lemma getb_setb_same : forall t z b, (Z.to_nat z < length (tbs t))%nat -> getb (setb t z b) z = b.
+  Proof. intros. unfold getb, setb; simpl. apply nth_upd_nth_eq; auto. Qed.
+
+  Lemma getb_setb_other : forall t z z' b, Z.to_nat z <> Z.to_nat z' -> getb (setb t z b) z' = getb t z'.
+  Proof. intros. unfold getb, setb; simpl. apply nth_upd_nth_neq; auto. Qed.
+
+  Lemma tadd_spec : forall t k t', tinv t -> tadd t k = Some t' ->
+    tinv t' /\ Permutation (tkeys t') (k :: tkeys t) /\ tlog t' = tlog t.
+  Proof.
+    intros t k t' Ht H. unfold tadd in H.
+    change (start (h k) (bcount t)) with (path (bcount t) (h k) 0) in H.
+    destruct (add_loop (Z.to_nat (bcount t - 1)) t 0 (path (bcount t) (h k) 0)) as [[idx q]|] eqn:EL; [|discriminate].
+    destruct (add_loop_spec _ _ _ _ _ _ EL) as (Eidx & _ & HNF & HF).
+    set (i0 := path (bcount t) (h k) 0) in *.
+    set (b := getb t idx) in *.
+    set (b1 := mkB (items b ++ [k]) (wasFull b || (cap <=? Z.of_nat (length (items b ++ [k])))) (bound b)) in *.
+    set (t1 := setb t idx b1) in *.
+    set (hb := getb t1 i0) in *.
+    set (hb' := mkB (items hb) (wasFull hb) (upd_bound (bound hb) (Z.of_nat q))) in *.
+    inversion H; subst t'; clear H.
+    assert (Ridx : (Z.to_nat idx < length (tbs t))%nat) by (rewrite Eidx; apply path_in_range; auto).
+    assert (Ri0 : (Z.to_nat i0 < length (tbs t))%nat) by (apply path_in_range; auto).
+    assert (Ri0' : (Z.to_nat i0 < length (tbs t1))%nat) by (unfold t1, setb; simpl; rewrite upd_nth_length; auto).
+    (* pointwise description of the new table *)
+    assert (PW : forall z, (Z.to_nat z < length (tbs t))%nat ->
+              items (getb (setb t1 i0 hb') z) = (if Nat.eqb (Z.to_nat z) (Z.to_nat idx) then items (getb t z) ++ [k] else items (getb t z)) /\
+              wasFull (getb (setb t1 i0 hb') z) = (if Nat.eqb (Z.to_nat z) (Z.to_nat idx) then wasFull b1 else wasFull (getb t z)) /\
+              bound (getb (setb t1 i0 hb') z) = (if Nat.eqb (Z.to_nat z) (Z.to_nat i0) then upd_bound (bound (getb t z)) (Z.of_nat q) else bound (getb t z))).
+    { intros z Hz.
+      assert (G1 : getb t1 z = if Nat.eqb (Z.to_nat z) (Z.to_nat idx) then b1 else getb t z).
+      { destruct (Nat.eqb_spec (Z.to_nat z) (Z.to_nat idx)).
+        - unfold t1, getb, setb; simpl. rewrite e. apply nth_upd_nth_eq; auto.
+        - unfold t1. apply getb_setb_other; auto. }
+      assert (Ez : Z.to_nat z = Z.to_nat idx -> getb t z = b).
+      { intros E. unfold b, getb. rewrite E. auto. }
+      destruct (Nat.eqb_spec (Z.to_nat z) (Z.to_nat i0)).
+      - assert (G2 : getb (setb t1 i0 hb') z = hb').
+        { unfold getb, setb; simpl. rewrite e. apply nth_upd_nth_eq; auto. }
+        assert (G3 : hb = getb t1 z).
+        { unfold hb, getb. rewrite e; auto. }
+        rewrite G2. unfold hb'; simpl. rewrite G3, G1.
+        destruct (Nat.eqb_spec (Z.to_nat z) (Z.to_nat idx)) as [E2|E2]; [rewrite (Ez E2)|]; simpl; auto.
+      - rewrite getb_setb_other by auto. rewrite G1.
+        destruct (Nat.eqb_spec (Z.to_nat z) (Z.to_nat idx)) as [E2|E2]; [rewrite (Ez E2)|]; simpl; auto. }
+    assert (LEN : length (tbs (setb t1 i0 hb')) = length (tbs t)).
+    { unfold setb, t1; simpl. repeat rewrite upd_nth_length. auto. }
+    assert (OOR : forall z, (length (tbs t) <= Z.to_nat z)%nat -> getb (setb t1 i0 hb') z = getb t z).
+    { intros. unfold getb. rewrite nth_overflow by lia. rewrite nth_overflow by lia. auto. }
+    assert (MW : forall z, wasFull (getb t z) = true -> wasFull (getb (setb t1 i0 hb') z) = true).
+    { intros z Hz. destruct (Nat.lt_ge_cases (Z.to_nat z) (length (tbs t))).
+      - destruct (PW z H) as (_ & W & _). rewrite W. destruct (Nat.eqb_spec (Z.to_nat z) (Z.to_nat idx)); auto.
+        unfold b1; simpl. unfold b, getb in *. rewrite <- e. rewrite Hz. auto.
+      - rewrite OOR; auto. }
+    assert (MB : forall z, decode (tlog t) (bound (getb t z)) <= decode (tlog t) (bound (getb (setb t1 i0 hb') z))).
+    { intros z. destruct (Nat.lt_ge_cases (Z.to_nat z) (length (tbs t))).
+      - destruct (PW z H) as (_ & _ & W). rewrite W. destruct (Nat.eqb (Z.to_nat z) (Z.to_nat i0)); try lia.
+        apply decode_upd. lia.
+      - rewrite OOR; auto. lia. }
+    destruct Ht as (H0 & HL & HB).
+    split; [|split]; auto.
+    - split; [|split]; auto.
+      + rewrite LEN. exact HL.
+      + intros i b' Hi.
+        assert (Hi' : (i < length (tbs t))%nat) by (rewrite <- LEN; eapply nth_error_some_lt; eauto).
+        assert (Eb' : b' = getb (setb t1 i0 hb') (Z.of_nat i)).
+        { unfold getb. rewrite Nat2Z.id. symmetry. eapply nth_error_nth'; eauto. }
+        destruct (PW (Z.of_nat i)) as (PI & PWF & PB); [rewrite Nat2Z.id; auto|]. rewrite Nat2Z.id in *.
+        pose proof (nth_error_of_lt _ (tbs t) i emptyB Hi') as HOld.
+        destruct (HB i _ HOld) as (HF0 & HP0).
+        assert (Eold : nth i (tbs t) emptyB = getb t (Z.of_nat i)) by (unfold getb; rewrite Nat2Z.id; auto).
+        rewrite Eold in *.
+        split.
+        * rewrite Eb'. unfold isFull, blen. rewrite PI, PWF.
+          destruct (Nat.eqb_spec i (Z.to_nat idx)).
+          -- unfold b1; simpl. unfold b, getb. rewrite <- e. unfold getb in *. rewrite Nat2Z.id. intros HH. rewrite HH. apply orb_true_r.
+          -- apply HF0.
+        * intros x Hx. rewrite Eb', PI in Hx.
+          assert (In x (items (getb t (Z.of_nat i))) \/ (i = Z.to_nat idx /\ x = k)).
+          { destruct (Nat.eqb_spec i (Z.to_nat idx)); auto. apply in_app_or in Hx. destruct Hx as [Hx|Hx]; auto.
+            simpl in Hx. right; intuition. }
+          destruct H as [H|[H1 H2]].
+          -- apply (placed_mono t); auto.
+          -- subst x i. unfold placed. simpl tlog. unfold bcount; simpl tlog. fold (bcount t).
+             exists q. split; [rewrite Eidx; auto|]. split.
+             ++ fold i0. destruct (PW i0 Ri0) as (_ & _ & W). rewrite W. rewrite Nat.eqb_refl. apply decode_upd. lia.
+             ++ intros j Hj. apply MW. pose proof (HF j ltac:(lia)) as FJ.
+                pose proof (path_in_range t (h k) j (conj H0 (conj HL HB))) as RJ.
+                destruct (HB _ _ (getb_nth_error t _ RJ)) as (HF1 & _). auto.
+    - unfold tkeys.
+      change (tbs (setb t1 i0 hb')) with (upd_nth (Z.to_nat i0) hb' (tbs t1)).
+      rewrite (flat_map_upd_nth_same (tbs t1) (Z.to_nat i0) hb hb'); auto.
+      + change (tbs t1) with (upd_nth (Z.to_nat idx) b1 (tbs t)).
+        change (k :: flat_map items (tbs t)) with ([k] ++ flat_map items (tbs t)).
+        eapply flat_map_upd_nth_perm; [apply getb_nth_error; auto|].
+        unfold b1; simpl. fold b. apply Permutation_sym, Permutation_cons_append.
+      + unfold hb. apply getb_nth_error; auto.
+  Qed.
+
+  (* ---- pvRelocateItems ---- *)
+  Definition st_ok (st : mstat) : Prop :=
+    (st = MTerm -> nothrowReloc = true) /\ (nothrowReloc = true -> st <> MStop).
+
+  Ltac split5 := split; [|split; [|split; [|split]]].
+  Ltac split6 := split; [|split; [|split; [|split; [|split]]]].
+
+  Lemma st_ok_MOk : st_ok MOk.
+  Proof. split; intros; discriminate. Qed.
+
+  Lemma reloc_items_spec : forall its nw sch rem nw' sch' st, tinv nw ->
+    reloc_items its nw sch = (rem, nw', sch', st) ->
+    tinv nw' /\ tlog nw' = tlog nw /\
+    (exists dn, its = dn ++ rem /\ Permutation (tkeys nw') (dn ++ tkeys nw)) /\
+    (st = MOk -> rem = []) /\ st_ok st.
+  Proof.
+    induction its as [|k rest IH]; intros nw sch rem nw' sch' st Ht H; simpl in H.
+    - inversion H; subst. split5; auto using st_ok_MOk. exists []; simpl; auto.
+    - destruct (pop sch) as [f sch1].
+      destruct (f && negb nothrowReloc) eqn:EF.
+      { inversion H; subst. split5; auto; try discriminate.
+        - exists []; simpl; auto.
+        - split; [discriminate|]. intros HN. rewrite HN in EF. rewrite andb_false_r in EF. discriminate. }
+      destruct (tadd nw k) as [nw1|] eqn:ET.
+      + destruct (tadd_spec _ _ _ Ht ET) as (T1 & P1 & L1).
+        destruct (IH _ _ _ _ _ _ T1 H) as (T2 & L2 & (dn & E & P2) & R & S).
+        split5; auto; try congruence.
+        exists (k :: dn). split; [simpl; congruence|].
+        apply (Permutation_count_occ Z.eq_dec); intro y. count_hyp P1 y. count_hyp P2 y.
+        change ((k :: dn) ++ tkeys nw) with ([k] ++ dn ++ tkeys nw).
+        change (k :: tkeys nw) with ([k] ++ tkeys nw) in P0.
+        repeat rewrite count_occ_app in *. lia.
+      + inversion H; subst. split5; auto.
+        * exists []; simpl; auto.
+        * destruct nothrowReloc; discriminate.
+        * split; destruct nothrowReloc; auto; try discriminate.
+  Qed.
+
+  Lemma reloc_buckets_spec : forall bs nw sch bs' nw' sch' st, tinv nw ->
+    reloc_buckets bs nw sch = (bs', nw', sch', st) ->
+    tinv nw' /\ tlog nw' = tlog nw /\ Forall2 bsub bs' bs /\
+    Permutation (flat_map items bs ++ tkeys nw) (flat_map items bs' ++ tkeys nw') /\
+    (st = MOk -> flat_map items bs' = []) /\ st_ok st.
+  Proof.
+    induction bs as [|b rest IH]; intros nw sch bs' nw' sch' st Ht H; simpl in H.
+    - inversion H; subst. split6; auto using st_ok_MOk.
+    - destruct (reloc_items (rev (items b)) nw sch) as [[[rem nw1] sch1] st1] eqn:EI.
+      destruct (reloc_items_spec _ _ _ _ _ _ _ Ht EI) as (T1 & L1 & (dn & E & P1) & R1 & S1).
+      assert (EB : items b = rev rem ++ rev dn).
+      { rewrite <- rev_app_distr. rewrite <- E. rewrite rev_involutive. auto. }
+      assert (SB : bsub (mkB (rev rem) (wasFull b) (bound b)) b).
+      { unfold bsub; simpl. repeat split; auto.
+        - intros x Hx. rewrite EB. apply in_or_app; auto.
+        - rewrite EB, app_length. lia. }
+      destruct st1.
+      + destruct (reloc_buckets rest nw1 sch1) as [[[rest' nw2] sch2] st2] eqn:ER.
+        destruct (IH _ _ _ _ _ _ T1 ER) as (T2 & L2 & F2 & P2 & R2 & S2).
+        inversion H; subst. split6; auto; try congruence.
+        * apply (Permutation_count_occ Z.eq_dec); intro y. count_hyp P1 y. count_hyp P2 y.
+          simpl. rewrite EB. repeat rewrite count_occ_app in *. repeat rewrite count_occ_rev in *. lia.
+        * intros HM. simpl. rewrite (R1 eq_refl). simpl. auto.
+      + inversion H; subst. split6; auto; try discriminate.
+        * constructor; auto. apply Forall2_bsub_refl.
+        * apply (Permutation_count_occ Z.eq_dec); intro y. count_hyp P1 y.
+          simpl. rewrite EB. repeat rewrite count_occ_app in *. repeat rewrite count_occ_rev in *. lia.
+      + inversion H; subst. split6; auto; try discriminate.
+        * constructor; auto. apply Forall2_bsub_refl.
+        * apply (Permutation_count_occ Z.eq_dec); intro y. count_hyp P1 y.
+          simpl. rewrite EB. repeat rewrite count_occ_app in *. repeat rewrite count_occ_rev in *. lia.
+  Qed.
+
+  Lemma reloc_gens_spec : forall olds nw sch olds' nw' sch' st, Forall tinv olds -> tinv nw ->
+    reloc_gens olds nw sch = (olds', nw', sch', st) ->
+    Forall tinv olds' /\ tinv nw' /\ tlog nw' = tlog nw /\
+    Permutation (allkeys olds ++ tkeys nw) (allkeys olds' ++ tkeys nw') /\
+    (st = MOk -> olds' = []) /\ st_ok st.
+  Proof.
+    induction olds as [|g older IH]; intros nw sch olds' nw' sch' st HO Ht H; simpl in H.
+    - inversion H; subst. split6; auto using st_ok_MOk.
+    - inversion HO; subst.
+      destruct (reloc_gens older nw sch) as [[[older' nw1] sch1] st1] eqn:EG.
+      destruct (IH _ _ _ _ _ _ H3 Ht EG) as (F1 & T1 & L1 & P1 & R1 & S1).
+      destruct st1.
+      + destruct (reloc_buckets (tbs g) nw1 sch1) as [[[bs' nw2] sch2] st2] eqn:EB.
+        destruct (reloc_buckets_spec _ _ _ _ _ _ _ T1 EB) as (T2 & L2 & F2 & P2 & R2 & S2).
+        rewrite (R1 eq_refl) in *.
+        assert (PP : Permutation (allkeys (g :: older) ++ tkeys nw) (flat_map items bs' ++ tkeys nw2)).
+        { apply (Permutation_count_occ Z.eq_dec); intro y. count_hyp P1 y. count_hyp P2 y.
+          simpl in *. unfold tkeys at 1. repeat rewrite count_occ_app in *. simpl in *. lia. }
+        destruct st2; inversion H; subst; (split6; auto; try congruence; try discriminate).
+        * rewrite (R2 eq_refl) in PP. auto.
+        * constructor; auto. apply tinv_sub; auto.
+        * simpl. rewrite app_nil_r. auto.
+        * constructor; auto. apply tinv_sub; auto.
+        * simpl. rewrite app_nil_r. auto.
+      + inversion H; subst. split6; auto; try discriminate.
+        apply (Permutation_count_occ Z.eq_dec); intro y. count_hyp P1 y.
+        simpl. repeat rewrite count_occ_app in *. lia.
+      + inversion H; subst. split6; auto; try discriminate.
+        apply (Permutation_count_occ Z.eq_dec); intro y. count_hyp P1 y.
+        simpl. repeat rewrite count_occ_app in *. lia.
+  Qed.
+
+  Lemma relocate_spec : forall gs sch gs', Forall tinv gs -> relocate gs sch = Some gs' ->
+    Forall tinv gs' /\ Permutation (allkeys gs) (allkeys gs') /\
+    (nothrowReloc = true -> (length gs <= 1)%nat \/ length gs' = 1%nat) /\
+    (gs <> [] -> gs' <> []) /\ (length gs' <= length gs)%nat.
+  Proof.
+    intros gs sch gs' HF H. unfold relocate in H.
+    destruct gs as [|nw [|g olds]].
+    - inversion H; subst. split5; auto.
+    - inversion H; subst. split5; auto.
+    - inversion HF; subst.
+      destruct (reloc_gens (g :: olds) nw sch) as [[[olds' nw'] sch'] st] eqn:E.
+      destruct (reloc_gens_spec _ _ _ _ _ _ _ H3 H2 E) as (F1 & T1 & L1 & P1 & R1 & S1).
+      assert (PP : Permutation (allkeys (nw :: g :: olds)) (allkeys (nw' :: olds'))).
+      { apply (Permutation_count_occ Z.eq_dec); intro y. count_hyp P1 y.
+        simpl in *. repeat rewrite count_occ_app in *. lia. }
+      assert (LL : (length olds' <= length (g :: olds))%nat).
+      { clear - E. revert nw sch olds' nw' sch' st E. generalize (g :: olds) as l.
+        induction l as [|a l IH]; intros; simpl in E.
+        - inversion E; subst; simpl; lia.
+        - destruct (reloc_gens l nw sch) as [[[o1 n1] s1] st1] eqn:E1. specialize (IH _ _ _ _ _ _ E1).
+          destruct st1.
+          + destruct (reloc_buckets (tbs a) n1 s1) as [[[bs' n2] s2] st2]. destruct st2; inversion E; subst; simpl; lia.
+          + inversion E; subst; simpl; lia.
+          + inversion E; subst; simpl; lia. }
+      destruct st; inversion H; subst; (split5; auto; try discriminate; try (simpl in *; lia)).
+      + intros. right. rewrite (R1 eq_refl). auto.
+      + intros HN. destruct S1 as [_ S1]. exfalso. apply (S1 HN); auto.
+  Qed.
+
+  (* ---- the container ---- *)
+  Definition abs (s : hset) : list Z := allkeys (gens s).
+
+  (* relocate_interrupted_inv: every element lives in exactly one generation, on the probe path of its home
+     bucket of that generation within the recorded bound, keys distinct across generations, count exact *)
+  Definition Inv (s : hset) : Prop :=
+    Forall tinv (gens s) /\ NoDup (abs s) /\ count s = Z.of_nat (length (abs s)) /\
+    (nothrowReloc = true -> (length (gens s) <= 1)%nat).
+
+  Lemma Inv_init : Inv hinit.
+  Proof. unfold Inv, hinit, abs; simpl. repeat split; auto; try constructor. Qed.
+
+  Lemma flat_map_repeat_empty : forall n, flat_map items (repeat emptyB n) = [].
+  Proof. induction n; simpl; auto. Qed.
+
+  Lemma tkeys_newTable : forall nl, tkeys (newTable nl) = [].
+  Proof. intros. unfold tkeys, newTable; simpl. apply flat_map_repeat_empty. Qed.
+
+  Lemma tinv_newTable : forall nl, 0 <= nl -> tinv (newTable nl).
+  Proof.
+    intros nl H. unfold tinv, newTable; simpl. split; [auto|split].
+    - rewrite repeat_length. reflexivity.
+    - intros i b Hi. apply nth_error_In in Hi. apply repeat_spec in Hi. subst b. split.
+      + unfold isFull, blen; simpl. intros HH. apply Z.leb_le in HH. lia.
+      + simpl. tauto.
+  Qed.
+
+  Lemma newLog_nonneg : forall gs, Forall tinv gs -> 0 <= newLog gs.
+  Proof.
+    intros gs H. destruct gs; simpl; auto. inversion H; subst. destruct H2 as (H0 & _).
+    pose proof (shift_nonneg (bcount t)). lia.
+  Qed.
+
+  Lemma tinv_notin_tfind : forall t k, tinv t -> tfind t k = None -> ~ In k (tkeys t).
+  Proof. intros t k Ht Hf Hin. destruct (tinv_find t k Ht Hin) as (i & pos & E). congruence. Qed.
+
+  Lemma gfind_complete : forall gs k gi, Forall tinv gs -> (nothrowReloc = true -> (length gs <= 1)%nat) ->
+    In k (allkeys gs) -> exists loc, gfind gs k gi = Some loc.
+  Proof.
+    induction gs as [|t r IH]; intros k gi HF HN Hin; simpl in *; [tauto|].
+    inversion HF; subst.
+    destruct (tfind t k) as [[idx pos]|] eqn:E; [eauto|].
+    apply in_app_or in Hin. destruct Hin as [Hin|Hin]; [exfalso; eapply tinv_notin_tfind; eauto|].
+    destruct nothrowReloc eqn:EN.
+    - specialize (HN eq_refl). destruct r; simpl in *; [tauto|lia].
+    - apply IH; auto. intros; discriminate.
+  Qed.
+
+  Lemma gfind_sound : forall gs k gi g idx pos, gfind gs k gi = Some (g, idx, pos) ->
+    exists t, (gi <= g)%nat /\ nth_error gs (g - gi) = Some t /\ tfind t k = Some (idx, pos).
+  Proof.
+    induction gs as [|t r IH]; intros k gi g idx pos H; simpl in H; [discriminate|].
+    destruct (tfind t k) as [[i p]|] eqn:E.
+    - inversion H; subst. exists t. rewrite Nat.sub_diag. auto.
+    - destruct nothrowReloc; [discriminate|]. destruct (IH _ _ _ _ _ H) as (t' & L & N & F).
+      exists t'. split; [lia|]. split; auto. replace (g - gi)%nat with (S (g - S gi)) by lia. auto.
+  Qed.
+
+  Lemma hfind_sound : forall s k g idx pos, hfind s k = Some (g, idx, pos) ->
+    exists t, nth_error (gens s) g = Some t /\ tfind t k = Some (idx, pos) /\ In k (abs s).
+  Proof.
+    unfold hfind; intros. destruct (count s =? 0); [discriminate|].
+    destruct (gfind_sound _ _ _ _ _ _ H) as (t & _ & N & F). rewrite Nat.sub_0_r in N.
+    exists t. repeat split; auto. unfold abs, allkeys. apply in_flat_map. exists t. split.
+    - eapply nth_error_In; eauto.
+    - apply tfind_in in F. tauto.
+  Qed.
+
+  (* all_findable *)
+  Lemma hfind_complete : forall s k, Inv s -> In k (abs s) -> exists loc, hfind s k = Some loc.
+  Proof.
+    intros s k (HF & HD & HC & HN) Hin. unfold hfind.
+    destruct (Z.eqb_spec (count s) 0).
+    - rewrite HC in e. destruct (abs s); simpl in *; [tauto|lia].
+    - apply gfind_complete; auto.
+  Qed.
+
+  Lemma allkeys_upd : forall gs g t t' k, nth_error gs g = Some t -> Permutation (tkeys t) (k :: tkeys t') ->
+    Permutation (allkeys gs) (k :: allkeys (upd_nth g t' gs)).
+  Proof.
+    intros. destruct (upd_nth_split _ g t' gs t H) as (l1 & l2 & E1 & E2 & _). rewrite E2, E1.
+    unfold allkeys. repeat rewrite flat_map_app. simpl.
+    apply (Permutation_count_occ Z.eq_dec); intro y. count_hyp H0 y.
+    change (k :: flat_map tkeys l1 ++ tkeys t' ++ flat_map tkeys l2) with ([k] ++ flat_map tkeys l1 ++ tkeys t' ++ flat_map tkeys l2).
+    change (k :: tkeys t') with ([k] ++ tkeys t') in H1.
+    repeat rewrite count_occ_app in *. lia.
+  Qed.
+
+  Lemma Forall_upd_nth : forall A (P : A -> Prop) l n x, Forall P l -> P x -> Forall P (upd_nth n x l).
+  Proof. induction l; destruct n; simpl; intros; auto; inversion H; subst; constructor; auto. Qed.
+
+  Lemma NoDup_perm_cons : forall (k : Z) l l', NoDup l -> Permutation l (k :: l') -> NoDup l' /\ ~ In k l'.
+  Proof.
+    intros. assert (NoDup (k :: l')) by (eapply Permutation_NoDup; eauto). inversion H1; subst. auto.
+  Qed.
+
+  (* removable *)
+  Lemma remove_spec : forall s k g idx pos, Inv s -> hfind s k = Some (g, idx, pos) ->
+    let s' := mkH (upd_gen (gens s) g (fun t => tremove t idx pos)) (count s - 1) (capacity s) in
+    Inv s' /\ Permutation (abs s) (k :: abs s') /\ ~ In k (abs s') /\ length (gens s') = length (gens s).
+  Proof.
+    intros s k g idx pos (HF & HD & HC & HN) H. simpl.
+    destruct (hfind_sound _ _ _ _ _ H) as (t & N & F & _).
+    apply tfind_in in F. destruct F as (F1 & F2 & F3).
+    assert (Ht : tinv t) by (eapply Forall_forall; [apply HF|eapply nth_error_In; eauto]).
+    destruct (tremove_spec t idx pos k Ht F1) as (T1 & P1 & L1).
+    unfold upd_gen. rewrite N.
+    pose proof (allkeys_upd _ _ _ _ _ N P1) as PA.
+    destruct (NoDup_perm_cons _ _ _ HD PA) as (ND & NI).
+    unfold Inv, abs; simpl. split; [|split; [|split]]; auto.
+    split; [|split; [|split]]; auto.
+    - apply Forall_upd_nth; auto.
+    - apply Permutation_length in PA. unfold abs in *. simpl in PA. lia.
+    - rewrite upd_nth_length. auto.
+    - apply upd_nth_length.
+  Qed.
+
+  Lemma relocate_not_none : forall gs sch, (nothrowReloc = true -> (length gs <= 1)%nat) -> Forall tinv gs ->
+    relocate gs sch <> None.
+  Proof.
+    intros gs sch HN HF. unfold relocate. destruct gs as [|nw [|g olds]]; try discriminate.
+    inversion HF; subst.
+    destruct (reloc_gens (g :: olds) nw sch) as [[[olds' nw'] sch'] st] eqn:E.
+    destruct (reloc_gens_spec _ _ _ _ _ _ _ H2 H1 E) as (_ & _ & _ & _ & _ & (S1 & _)).
+    destruct st; try discriminate. specialize (HN (S1 eq_refl)). simpl in HN. lia.
+  Qed.
+
+  Lemma add_head_spec : forall s t r k afail ncap sch s' o,
+    Forall tinv (t :: r) -> NoDup (k :: allkeys (t :: r)) -> count s = Z.of_nat (length (allkeys (t :: r))) ->
+    (nothrowReloc = true -> (length r <= 1)%nat) ->
+    add_head s t r k afail ncap sch = Some (s', o) ->
+    (o = RInserted /\ Forall tinv (gens s') /\ NoDup (abs s') /\ count s' = Z.of_nat (length (abs s')) /\
+       (nothrowReloc = true -> (length (gens s') <= 1)%nat) /\
+       Permutation (abs s') (k :: allkeys (t :: r)) /\ capacity s' = ncap /\ (length (gens s') <= S (length r))%nat) \/
+    (s' = s /\ (o = RFull \/ o = RBadAlloc)).
+  Proof.
+    intros s t r k afail ncap sch s' o HF HD HC HN H. unfold add_head in H.
+    destruct (tadd t k) as [t'|] eqn:ET; [|inversion H; subst; right; auto].
+    destruct afail; [inversion H; subst; right; auto|].
+    inversion HF; subst. destruct (tadd_spec _ _ _ H2 ET) as (T1 & P1 & L1).
+    destruct (relocate (t' :: r) sch) as [gs|] eqn:ER; [|discriminate].
+    inversion H; subst; clear H. left.
+    assert (HF' : Forall tinv (t' :: r)) by (constructor; auto).
+    destruct (relocate_spec _ _ _ HF' ER) as (F2 & P2 & N2 & _ & LL).
+    assert (PA : Permutation (allkeys gs) (k :: allkeys (t :: r))).
+    { apply (Permutation_count_occ Z.eq_dec); intro y. count_hyp P1 y. count_hyp P2 y.
+      simpl in *. repeat rewrite count_occ_app in *. destruct (Z.eq_dec k y); lia. }
+    unfold abs; simpl. split; [auto|]. split; [auto|]. split; [|split; [|split; [|split; [|split]]]]; auto.
+    - eapply Permutation_NoDup; [apply Permutation_sym; apply PA|]. auto.
+    - apply Permutation_length in PA. simpl in PA. rewrite PA, HC. simpl. lia.
+    - intros HT. destruct (N2 HT) as [A|A]; simpl in *; lia.
+  Qed.
+
+  Lemma hadd_spec : forall s k afail refuse sch s' o, Inv s -> ~ In k (abs s) ->
+    hadd s k afail refuse sch = Some (s', o) ->
+    (o = RInserted /\ Inv s' /\ Permutation (abs s') (k :: abs s)) \/
+    (s' = s /\ (o = RFull \/ o = RBadAlloc \/ o = RCheck)).
+  Proof.
+    intros s k afail refuse sch s' o (HF & HD & HC & HN) HK H. unfold hadd in H.
+    assert (ND : NoDup (k :: abs s)) by (constructor; auto).
+    assert (GEN : forall t r ncap, gens s = t :: r -> add_head s t r k afail ncap sch = Some (s', o) ->
+      (o = RInserted /\ Inv s' /\ Permutation (abs s') (k :: abs s)) \/ (s' = s /\ (o = RFull \/ o = RBadAlloc \/ o = RCheck))).
+    { intros t r ncap EG HA. unfold abs in *. rewrite EG in *.
+      assert (HN' : nothrowReloc = true -> (length r <= 1)%nat) by (intros HT; specialize (HN HT); simpl in HN; lia).
+      destruct (add_head_spec _ _ _ _ _ _ _ _ _ HF ND HC HN' HA)
+        as [(A1 & A2 & A3 & A4 & A5 & A6 & _)|(A1 & A2)].
+      - left. unfold Inv. unfold abs in *. repeat split; auto.
+      - right. intuition. }
+    destruct (count s <? capacity s).
+    - destruct (gens s) as [|t r] eqn:EG; [inversion H; subst; right; auto|]. eapply GEN; eauto.
+    - destruct (calcCapacity (2 ^ newLog (gens s)) <=? count s); [inversion H; subst; right; auto|].
+      destruct refuse.
+      + destruct (gens s) as [|t r] eqn:EG; [inversion H; subst; right; auto|]. eapply GEN; eauto.
+      + assert (HF' : Forall tinv (newTable (newLog (gens s)) :: gens s)).
+        { constructor; auto. apply tinv_newTable. apply newLog_nonneg; auto. }
+        assert (EK : allkeys (newTable (newLog (gens s)) :: gens s) = abs s).
+        { unfold abs. simpl. rewrite tkeys_newTable. auto. }
+        assert (ND' : NoDup (k :: allkeys (newTable (newLog (gens s)) :: gens s))) by (rewrite EK; auto).
+        assert (HC' : count s = Z.of_nat (length (allkeys (newTable (newLog (gens s)) :: gens s)))) by (rewrite EK; auto).
+        destruct (add_head_spec _ _ _ _ _ _ _ _ _ HF' ND' HC' HN H)
+          as [(A1 & A2 & A3 & A4 & A5 & A6 & _)|(A1 & A2)].
+        * left. rewrite EK in A6. unfold Inv. repeat split; auto.
+        * right. intuition.
+  Qed.
+
+  Lemma hreserve_spec : forall s n refuse sch s' o, Inv s -> hreserve s n refuse sch = Some (s', o) ->
+    Inv s' /\ Permutation (abs s') (abs s) /\ (o = RUnit \/ s' = s /\ (o = RBadAlloc \/ o = RCheck)).
+  Proof.
+    intros s n refuse sch s' o HI H. unfold hreserve in H.
+    destruct (n <=? capacity s); [inversion H; subst; auto|].
+    destruct (reserve_log 64 (newLog (gens s)) n) as [nl|] eqn:EL; [|inversion H; subst; auto 6].
+    destruct refuse; [inversion H; subst; auto 6|].
+    destruct (relocate (newTable nl :: gens s) sch) as [gs|] eqn:ER; [|discriminate].
+    inversion H; subst; clear H. destruct HI as (HF & HD & HC & HN).
+    assert (NL : 0 <= nl).
+    { clear - EL HF shift_nonneg logStart_nonneg. pose proof (newLog_nonneg _ HF). revert EL H. generalize (newLog (gens s)). generalize 64%nat.
+      induction n0; intros z EL Hz; simpl in EL; destruct (n <=? calcCapacity (2 ^ z)); try discriminate; try (inversion EL; subst; lia).
+      apply IHn0 in EL; lia. }
+    assert (HF' : Forall tinv (newTable nl :: gens s)) by (constructor; auto; apply tinv_newTable; auto).
+    destruct (relocate_spec _ _ _ HF' ER) as (F2 & P2 & N2 & _ & LL).
+    assert (PA : Permutation (allkeys gs) (abs s)).
+    { apply Permutation_sym. eapply Permutation_trans; [|apply P2]. unfold abs; simpl. rewrite tkeys_newTable. auto. }
+    split; [|split]; auto.
+    unfold Inv, abs; simpl. repeat split; auto.
+    - eapply Permutation_NoDup; [apply Permutation_sym; apply PA|]. auto.
+    - apply Permutation_length in PA. rewrite PA. auto.
+    - intros HT. destruct (N2 HT) as [A|A]; simpl in *; try lia. specialize (HN HT). lia.
+  Qed.
+
+  (* observable results against the abstract set A = abs s (a list without duplicates) *)
+  Definition out_ok (A : list Z) (o : op) (r : out) : Prop :=
+    match o with
+    | OInsert k hf af rf sch =>
+      match r with
+      | RInserted => ~ In k A /\ hf = false /\ af = false
+      | RAlready => In k A /\ hf = false
+      | RExn => hf = true
+      | RFull | RBadAlloc | RCheck => ~ In k A /\ hf = false
+      | _ => False
+      end
+    | OFind k => (r = RFound true /\ In k A) \/ (r = RFound false /\ ~ In k A)
+    | ORemove k => (r = RRemoved true /\ In k A) \/ (r = RRemoved false /\ ~ In k A)
+    | OReserve n rf sch => r = RUnit \/ r = RBadAlloc \/ r = RCheck
+    | OTraverse => exists l, r = RList l /\ Permutation l A /\ NoDup l
+    | OCount => r = RNum (Z.of_nat (length A))
+    end.
+
+  Definition abs_after (A : list Z) (o : op) (r : out) (A' : list Z) : Prop :=
+    match o, r with
+    | OInsert k _ _ _ _, RInserted => Permutation A' (k :: A)
+    | ORemove k, RRemoved true => Permutation A (k :: A')
+    | _, _ => Permutation A' A
+    end.
+
+  Lemma ttraverse_perm : forall t, Permutation (ttraverse t) (tkeys t).
+  Proof.
+    intros. unfold ttraverse, tkeys. induction (tbs t); simpl; auto.
+    apply Permutation_app; auto. apply Permutation_sym, Permutation_rev.
+  Qed.
+
+  Lemma traverse_all_perm : forall gs, Permutation (flat_map ttraverse gs) (allkeys gs).
+  Proof. induction gs; simpl; auto. apply Permutation_app; auto using ttraverse_perm. Qed.
+
+  (* traversal_once *)
+  Lemma traverse_spec : forall s, Inv s -> Permutation (traverse s) (abs s) /\ NoDup (traverse s).
+  Proof.
+    intros s (HF & HD & HC & HN). unfold traverse.
+    destruct (Z.eqb_spec (count s) 0).
+    - rewrite HC in e. destruct (abs s); simpl in *; [split; auto; constructor|lia].
+    - split; [apply traverse_all_perm|]. eapply Permutation_NoDup; [apply Permutation_sym, traverse_all_perm|]. auto.
+  Qed.
+
+  Lemma hfind_none_notin : forall s k, Inv s -> hfind s k = None -> ~ In k (abs s).
+  Proof. intros s k HI H Hin. destruct (hfind_complete s k HI Hin). congruence. Qed.
+
+  Theorem step_refines : forall s o s' r, Inv s -> step s o = Some (s', r) ->
+    Inv s' /\ out_ok (abs s) o r /\ abs_after (abs s) o r (abs s').
+  Proof.
+    intros s o s' r HI H. destruct o; simpl in H.
+    - destruct hfail; [inversion H; subst; simpl; auto|].
+      destruct (hfind s k) as [[[g idx] pos]|] eqn:EF.
+      + inversion H; subst. destruct (hfind_sound _ _ _ _ _ EF) as (_ & _ & _ & Hin). simpl; auto.
+      + pose proof (hfind_none_notin _ _ HI EF) as NI.
+        destruct (hadd_spec _ _ _ _ _ _ _ HI NI H) as [(A1 & A2 & A3)|(A1 & A2)].
+        * subst r. simpl. repeat split; auto.
+          unfold hadd in H. destruct afail; auto. exfalso.
+          unfold add_head in H.
+          destruct (count s <? capacity s); [destruct (gens s); [discriminate|]|
+            destruct (calcCapacity (2 ^ newLog (gens s)) <=? count s); [discriminate|destruct refuse; [destruct (gens s); [discriminate|]|]]];
+          match type of H with context [tadd ?t ?k] => destruct (tadd t k); discriminate end.
+        * subst s'. split; auto. destruct A2 as [A2|[A2|A2]]; subst r; simpl; auto.
+    - inversion H; subst. split; auto. simpl. destruct (hfind s' k) as [[[g idx] pos]|] eqn:EF.
+      + destruct (hfind_sound _ _ _ _ _ EF) as (_ & _ & _ & Hin). auto.
+      + pose proof (hfind_none_notin _ _ HI EF). auto.
+    - destruct (hfind s k) as [[[g idx] pos]|] eqn:EF.
+      + inversion H; subst. destruct (remove_spec _ _ _ _ _ HI EF) as (A1 & A2 & A3 & _).
+        destruct (hfind_sound _ _ _ _ _ EF) as (_ & _ & _ & Hin). simpl; auto.
+      + inversion H; subst. pose proof (hfind_none_notin _ _ HI EF). simpl; auto.
+    - destruct (hreserve_spec _ _ _ _ _ _ HI H) as (A1 & A2 & A3). split; auto. simpl. split; auto.
+      destruct A3 as [A3|(_ & [A3|A3])]; auto.
+    - inversion H; subst. destruct (traverse_spec _ HI). split; auto. simpl. split; eauto.
+    - inversion H; subst. split; auto. simpl. destruct HI as (_ & _ & HC & _). rewrite HC. auto.
+  Qed.
+
+  (* relocate_interrupted_inv for every history and every schedule *)
+  Theorem run_inv : forall os s s' outs, Inv s -> run s os = Some (s', outs) -> Inv s'.
+  Proof.
+    induction os as [|o os IH]; intros s s' outs HI H; simpl in H.
+    - inversion H; subst; auto.
+    - destruct (step s o) as [[s1 x]|] eqn:ES; [|discriminate].
+      destruct (run s1 os) as [[s2 xs]|] eqn:ER; [|discriminate]. inversion H; subst.
+      destruct (step_refines _ _ _ _ HI ES) as (I1 & _). eauto.
+  Qed.
+
+  (* the whole history refines the abstract set: results are those of a set, whatever failed *)
+  Fixpoint refines (A : list Z) (os : list op) (outs : list out) (A' : list Z) : Prop :=
+    match os, outs with
+    | [], [] => Permutation A A'
+    | o :: os', r :: outs' => out_ok A o r /\ exists A1, abs_after A o r A1 /\ NoDup A1 /\ refines A1 os' outs' A'
+    | _, _ => False
+    end.
+
+  Theorem run_refines : forall os s s' outs, Inv s -> run s os = Some (s', outs) -> refines (abs s) os outs (abs s').
+  Proof.
+    induction os as [|o os IH]; intros s s' outs HI H; simpl in H.
+    - inversion H; subst; simpl; auto.
+    - destruct (step s o) as [[s1 x]|] eqn:ES; [|discriminate].
+      destruct (run s1 os) as [[s2 xs]|] eqn:ER; [|discriminate]. inversion H; subst.
+      destruct (step_refines _ _ _ _ HI ES) as (I1 & O1 & A1). simpl. split; auto.
+      exists (abs s1). split; auto. split; [apply I1|]. eauto.
+  Qed.
 End GrowModel.
 
 (* ---- concrete bucket kinds (instantiation used for extraction and for the non-vacuity examples) ---- *)
